@@ -1,15 +1,23 @@
 """C07 - CSV, Excel and AIF round trips preserve the isotherm.
 
-proof phase   : Props/C07.v over Codec/CastString.v (cast_string / _to_string on ASCII strings, Python float grammar as a recogniser)
-                and Codec/CsvDoc.v (the CSV document: writer and reader)
+proof phase   : Props/C07.v over Codec/CastString.v (cast_string / _to_string on ASCII strings, Python float grammar as a recogniser),
+                Codec/CsvDoc.v (the CSV document: writer and reader), Codec/XlDoc.v + Gen/XlGen.v (the Excel workbook as two abstract
+                cell grids: writer and reader; the reader's cell tests, the header guard and the field table GENERATED from excel.py)
+                and Codec/AifDoc.v (the AIF block as an abstract item list: writer and reader)
 correspondence: cast_string on 20 000 structured ASCII strings vs the Gallina model executed in Coq (kind of result and integer value);
                 the model's CSV document vs isotherm_to_csv's text line by line and the model's import of that text vs the state of
-                isotherm_from_csv's result, on generated isotherms, inside Coq (oracles repr / float() / _from_list as per-case tables)
+                isotherm_from_csv's result, on generated isotherms, inside Coq (oracles repr / float() / _from_list as per-case tables);
+                the model's two worksheets vs the cells xlrd reads from the file isotherm_to_xl wrote, cell by cell, and the model's import
+                of those cells vs the state of isotherm_from_xl's result (oracles dtype names / str / literal_eval as per-case tables);
+                the model's AIF item list vs the items gemmi parses from isotherm_to_aif's text, item by item, and the model's import of
+                those items vs the state of isotherm_from_aif's result (oracles repr / float() / _from_list / to_numeric as tables)
 oracle/search : on the implementation: cast_string(_to_string(v)) == v (typed) on structured values of the documented domain;
                 export + import through CSV / AIF / Excel of generated isotherms (three classes x unit configurations x data shapes x
                 metadata drawn from the format's value domain, string and file targets): material and properties, adsorbate,
                 temperature, unit labels, every cell to 8 decimals, branch marks and order, model dictionary, metadata values and
-                types, == when the content is equal; a separate malformed stream (separator / quote / newline / blanks in text) whose
+                types, == when the content is equal; a third of the isotherms carry falsy / special values (0, 0.0, -0.0, False, '', NaN,
+                infinities, denormals, 1e-9, 1e22, 1e300, int zeros) at the first, a middle and the last row of the pressure, loading
+                and extra columns, or in the model parameters / ranges; a separate malformed stream (separator / quote / newline / blanks in text) whose
                 only oracle is "pyGAPS error or unchanged value"
 """
 import math
@@ -36,14 +44,35 @@ MANIFEST = dict(
          "whose text contains the separator is refused with ParsingError whatever precedes or follows it. Refuted with witnesses: negative ints "
          "come back as floats, numeric/boolean/none-looking text changes type, tuples come back as text, trailing blanks are stripped, a key "
          "spelled like 'data...'/'model...' ends the metadata, a material property key containing '_material_' is mangled, the model rmse comes "
-         "back as text. Both models are compared with the implementation inside Coq on every run (20 000 strings; ~110 generated CSV documents "
-         "line by line and their re-imported state). The CSV theorems stop at the constructor call, take a one-character separator, and take "
-         "repr / float() / _from_list / pandas' cell reader through explicit premises. NOT modelled in Coq: pandas quoting, xlwt/xlrd cells, gemmi "
-         "CIF: the Excel and AIF round trips (and CSV beyond the fragment) are judged on the implementation by a field-by-field oracle over "
-         "generated isotherms (validation, not proof).",
-    note="Trusted: Coq kernel; Python float()/repr()/int()/ast.literal_eval as oracles (finite tables per case in the CSV correspondence); pandas "
-         "CSV reader/writer on homogeneous columns, xlwt/xlrd, gemmi; numpy round(8) = exact rounding away from ties; the harness.",
-    technique="Coq proof (induction over numerals, metadata lists and row lists; evaluation) on hand models tied by per-run differentials executed in Coq; round-trip oracle on the implementation")
+         "back as text. (3) the EXCEL WORKBOOK (Codec/XlDoc.v): the 'data' and 'otherdata' sheets as abstract cell grids; writer (header fields "
+         "written only `if val:`, type cell, dtype row, column names, one row per point with the ads/des mark, model block, remaining items) and "
+         "reader (EMPTY header cell -> None, the scans for the last data row / header column / model parameter / otherdata row, dtype cells + "
+         "astype, branch column rebuilt, BOOLEAN / EMPTY otherdata values, version and iso_id pops, _material_ regrouping); the cell tests of the "
+         "scans, the header guard and the field table are GENERATED from excel.py (Gen/XlGen.v, tools/py2v_xl.py, fail-closed). Proved: a NUMBER "
+         "cell never ends a scan (so a pressure of exactly 0 does not end the table); by induction over the row list the reader's table on the "
+         "writer's sheet returns the column names and EVERY row in order with its mark and its values through the library and the recorded "
+         "dtype; by induction over the metadata list / parameter list the otherdata rows / parameter rows of a dictionary in the value domain "
+         "are read back as that dictionary; the reader applied to the writer's workbook up to the constructor call for metadata-only and point "
+         "isotherms; instances for the library as it behaves (any number is a valid pressure cell; floats, nan, inf, booleans, None, non-empty "
+         "text are in the domain). Refuted with witnesses: ints come back as floats, empty text as None, a falsy header value is not written. "
+         "(4) the AIF BLOCK (Codec/AifDoc.v): the document as an abstract item list (pairs, loops); writer (sample_ flattening, audit / named / "
+         "unit / _pygaps_ pairs with set_pair semantics, one _adsorp_ then one _desorp_ loop with 8-decimal texts, model pairs) and reader "
+         "(strip(\"'\"), named tags, _pygaps_ tags through cast_string, loops with to_numeric per column, sample_ regrouping, ads rows then des "
+         "rows, model dictionary); gemmi is the identity on single-token values. Proved: by induction over the metadata list the _pygaps_ pairs "
+         "the writer appends are read back as the dictionary for values with cast_string(str(v).strip(\"'\")) = v (instances: every non-negative "
+         "int, booleans, None, plain text without outer quotes, floats under the oracles' contract); witness: a table starting and ending at "
+         "pressure 0 with falsy metadata is read back. Refuted with witnesses: interleaved marks are regrouped, outer quotes are lost, negative "
+         "ints come back as floats. The named tags, unit strings, loops and model pairs of AIF are covered by the per-run comparison and the "
+         "witnesses, not by a general theorem. "
+         "All four models are compared with the implementation inside Coq on every run (20 000 strings; ~110 generated CSV documents line by "
+         "line; ~110 generated workbooks cell by cell; ~110 generated AIF blocks item by item; and their re-imported state). The theorems stop at "
+         "the constructor call and take repr / float() / _from_list / pandas' cell reader / to_numeric / dtype names / astype / the xlwt+xlrd cell "
+         "codec / gemmi through explicit premises or oracles. NOT modelled in Coq: pandas quoting, the .xls byte format, CIF text syntax: beyond the "
+         "modelled fragments the round trips are judged on the implementation by a field-by-field oracle over generated isotherms (validation).",
+    note="Trusted: Coq kernel; Python float()/repr()/int()/str()/ast.literal_eval as oracles (finite tables per case in the correspondences); pandas "
+         "CSV reader/writer on homogeneous columns, pandas dtype names / astype, xlwt/xlrd (the model of their cell codec is compared cell by cell "
+         "on every run), gemmi; numpy round(8) = exact rounding away from ties; the translators py2v_tables / py2v_xl; the harness.",
+    technique="Coq proof (induction over numerals, metadata lists and row lists; evaluation) on hand models tied by per-run differentials executed in Coq, with the Excel reader's cell tests generated from the source; round-trip oracle on the implementation with special-value injection")
 
 SCR = os.path.join(vlib.VERIF, '.scratch')
 HEADER = """From Coq Require Import ZArith NArith String List Bool Ascii.
@@ -194,7 +223,54 @@ def to_string_oracle(rep, tier, seed):
 
 
 # ------------------------------------------------------------------ C. document round trips
-def gen_specs(rnd, fmt, n):
+# values that are falsy or otherwise special for Python / the containers: exact and signed zeros, magnitudes below the 8-decimal
+# grid and denormals, magnitudes where str() switches to exponent notation, infinities, missing values
+CELL_FLOATS = [0.0, 0.0, 0.0, 0.0, -0.0, 1e-9, -1e-9, 4e-9, 5e-324, 1e-300, 1e-8, 1e15, 1e16, 1e22, 1e300, float('inf'), float('-inf'), float('nan')]
+CELL_INTS = [0, 0, 0, -1, 1, 2 ** 31, 10 ** 15]
+PARAM_FLOATS = [0.0, 0.0, 0.0, 5e-324, 1e-300, 1e-16, 1e16, 1e22, 1e300]
+
+
+def _positions(rnd, n):
+    """FIRST / MIDDLE / LAST row (any non-empty subset)"""
+    pos = [k for k in (0, n // 2, n - 1) if rnd.random() < 0.5] or [rnd.choice([0, n // 2, n - 1])]
+    return sorted(set(pos))
+
+
+def special_values(rnd, spec, fmt):
+    """puts special values at the first / a middle / the last row of the pressure column, the loading column and the extra columns of a
+    point isotherm (each column keeps its kind: floats in float columns, ints in int columns, booleans in boolean columns, text in
+    text columns), and at the first / middle / last parameter and the range bounds of a model"""
+    if spec['cls'] == 'point':
+        d = spec['data']
+        n = len(d['p'])
+        targets = [('p', d['p']), ('l', d['l'])] + [(k, v) for k, v in d['cols'].items()]
+        rnd.shuffle(targets)
+        for name, col in targets[:rnd.choice([1, 1, 2, 3])]:
+            isint = all(isinstance(x, int) and not isinstance(x, bool) for x in col)
+            for k in _positions(rnd, n):
+                x = col[k]
+                if isinstance(x, bool):
+                    col[k] = False
+                elif isinstance(x, str):
+                    if fmt == 'xl':            # CSV / AIF: an empty cell IS the missing value (outside the value domain of a text column)
+                        col[k] = ''
+                elif isint:
+                    col[k] = rnd.choice(CELL_INTS)
+                else:
+                    col[k] = rnd.choice(CELL_FLOATS)
+    elif spec['cls'] == 'model':
+        m = spec['model']
+        names = list(m['params'])
+        for k in _positions(rnd, len(names)):
+            m['params'][names[k]] = rnd.choice(PARAM_FLOATS)
+        if rnd.random() < 0.5:
+            m['prange'] = (0.0, m['prange'][1])
+        if rnd.random() < 0.3:
+            m['lrange'] = (0.0, rnd.choice([0.0, 1e-300, 1e22, m['lrange'][1]]))
+    return spec
+
+
+def gen_specs(rnd, fmt, n, special=0.35):
     specs = []
     for _ in range(n):
         s = cc.gen_spec(rnd, 'flat', blank_keys=False, mat_nested=False)
@@ -214,6 +290,8 @@ def gen_specs(rnd, fmt, n):
                 d['cols'] = {k: ([x if x.isascii() and ' ' not in x else 'tok' for x in v] if v and isinstance(v[0], str) else v) for k, v in d['cols'].items()}
             if (d['pk'], d['lk']) not in (('pressure', 'loading'), ('p', 'l')):
                 d['pk'], d['lk'] = 'pressure', 'loading'
+        if rnd.random() < special:
+            special_values(rnd, s, fmt)
         specs.append(s)
     return specs
 
@@ -262,6 +340,8 @@ def close8(a, b):
     if isinstance(a, (int, float)) and isinstance(b, (int, float)):
         if a != a or b != b:
             return a != a and b != b
+        if a == b:                       # infinities (inf - inf is nan)
+            return True
         return abs(a - b) <= 5.0000001e-9 + 1e-15 * abs(a)
     return a == b
 
@@ -310,7 +390,9 @@ def content_diff(o0, o1):
 
 
 def has_fine_cells(o0):
-    return any(isinstance(v, float) and round(v, 8) != v for c, _ in o0.get('rows', []) for v in c.values())
+    """cells whose content beyond the documented 8 decimals (or the sign of a zero: xlwt stores -0.0 as 0.0) may legitimately change:
+    == (a hash of the exact cells) is then not judged"""
+    return any(isinstance(v, float) and (round(v, 8) != v or (v == 0.0 and math.copysign(1.0, v) < 0)) for c, _ in o0.get('rows', []) for v in c.values())
 
 
 def dclass(d):
@@ -617,12 +699,334 @@ def csv_correspondence(rep, tier, seed):
     return n_doc
 
 
+# ------------------------------------------------------------------ E. Excel document model (Codec/XlDoc.v) vs the implementation
+XL_HEADER = CSV_HEADER + 'From PG Require Import Codec.XlCell Gen.XlGen Codec.XlDoc Codec.XlShow.\n'
+
+
+def xl_cell(c):
+    """a cell as xlrd presents it -> Coq term of type XlCell.xcell"""
+    import xlrd
+    if c.ctype in (xlrd.XL_CELL_EMPTY, xlrd.XL_CELL_BLANK):
+        return 'XEmpty'
+    if c.ctype == xlrd.XL_CELL_TEXT:
+        return '(XText %s)' % cc.cstr(c.value)
+    if c.ctype == xlrd.XL_CELL_NUMBER:
+        return '(XNum %s)' % cc.cval(float(c.value))
+    if c.ctype == xlrd.XL_CELL_BOOLEAN:
+        return '(XBool %s)' % ('true' if c.value else 'false')
+    return '(XText "<ctype %d>")' % c.ctype
+
+
+def xl_grid(path):
+    """the two worksheets of the file as xlrd reads them: every cell of nrows x ncols"""
+    import xlrd
+    wb = xlrd.open_workbook(path)
+    out = []
+    for name in ('data', 'otherdata'):
+        if name not in wb.sheet_names():
+            out.append('[]')
+            continue
+        sh = wb.sheet_by_name(name)
+        out.append('[%s]' % '; '.join('[%s]' % '; '.join(xl_cell(sh.cell(r, c)) for c in range(sh.ncols)) for r in range(sh.nrows)))
+    return '(%s, %s)' % tuple(out), wb
+
+
+def _walk_ints(v, out):
+    v = cc.py(v)
+    if isinstance(v, int) and not isinstance(v, bool):
+        if abs(v) > 2 ** 53:
+            out.add(v)
+    elif isinstance(v, (list, tuple)):
+        for x in v:
+            _walk_ints(x, out)
+    elif isinstance(v, dict):
+        for x in v.values():
+            _walk_ints(x, out)
+
+
+def xl_oracle_tables(iso, o0, wb):
+    """the oracles of XlDoc.v other than the library, as finite tables for THIS case: float(int) beyond 2^53, pandas' dtype names,
+    str() of the model ranges, ast.literal_eval of the range cells of the file"""
+    import ast
+    big = set()
+    for part in (o0['temperature'], o0['meta'], o0['mprops'], [c for c, _ in o0.get('rows', [])]):
+        _walk_ints(part, big)
+    bt = '[%s]' % '; '.join('((%d)%%Z, %s)' % (z, vlib.flit(float(z))) for z in sorted(big))
+    dt = '[]'
+    if o0['cls'] == 'point':
+        dt = '[%s]' % '; '.join('(%s, %s)' % (cc.cstr(c), cc.cstr(iso.data_raw[c].dtype.name)) for c in iso.data_raw.columns)
+    st, lt = [], []
+    if o0['cls'] == 'model':
+        for rng, obs in ((iso.model.pressure_range, o0['model']['prange']), (iso.model.loading_range, o0['model']['lrange'])):
+            st.append('(%s, %s)' % (cc.cval(obs), cc.cstr(str(rng))))
+        sh = wb.sheet_by_name('data')
+        for r in range(sh.nrows):
+            for c in range(sh.ncols):
+                v = sh.cell(r, c).value
+                if isinstance(v, str) and v[:1] in '[(':
+                    try:
+                        lt.append('(%s, %s)' % (cc.cstr(v), cc.cval(ast.literal_eval(v))))
+                    except Exception:  # noqa  the oracle raises: no entry, the model maps that to ValueError
+                        pass
+    return bt, dt, '[%s]' % '; '.join(st), '[%s]' % '; '.join(lt)
+
+
+def xl_correspondence(rep, tier, seed):
+    import pygaps.parsing as pp
+    rnd = random.Random(seed + 31)
+    n = 1200 if tier == 'thorough' else 110
+    specs = gen_specs(rnd, 'xl', n, special=0.5)
+    for txt in ['', 0, 0.0, False, None, 'x', 1e-300, -7, 2 ** 53 + 1]:          # falsy / special metadata and material properties
+        s0 = cc.gen_spec(rnd, 'flat', cls=rnd.choice(['base', 'point', 'model']), blank_keys=False, mat_nested=False)
+        s0['meta'] = {'k1': txt, 'k2': 1.5}
+        s0['mprops'] = {'density': txt} if not isinstance(txt, str) else {}
+        s0['temperature'] = rnd.choice([0, 0.0, 77.0])
+        specs.append(s0)
+    tbl = cc.ads_canon_table()
+    os.makedirs(SCR, exist_ok=True)
+    path = os.path.join(SCR, 'c07x_%d.xls' % os.getpid())
+    terms, cases = [], []
+    skipped = {}
+    for k, spec in enumerate(specs):
+        if spec['cls'] == 'point':
+            d = spec['data']
+            if not isinstance(d['branch'], str) and any(isinstance(b, bool) for b in d['branch']):
+                skipped['bool marks (known finding C07-F7, judged by the oracle)'] = skipped.get('bool marks (known finding C07-F7, judged by the oracle)', 0) + 1
+                continue
+        try:
+            iso = cc.build(spec)
+        except Exception:  # noqa
+            continue
+        o0 = cc.observe(iso)
+        try:
+            pp.isotherm_to_xl(iso, path)
+        except Exception:  # noqa  (judged by the round-trip oracle)
+            continue
+        try:
+            j = pp.isotherm_from_xl(path)
+            imp, o1 = 'Ok', cc.observe(j)
+        except Exception as e:  # noqa
+            imp, o1 = vlib.exn_class(e), o0
+        book, wb = xl_grid(path)
+        bt, dt, st, lt = xl_oracle_tables(iso, o0, wb)
+        terms.append('(chk_xl %s %s %s %s %s %s %s (%d)%%Z %s)' % (bt, dt, st, lt, tbl, cc.coq_iso(o0), book,
+                                                              vlib.EXN.index(imp) if imp in vlib.EXN else 99, cc.coq_iso(o1)))
+        cases.append(dict(spec=spec, imp=imp))
+    if os.path.exists(path):
+        os.remove(path)
+    model = None
+    try:
+        model = vlib.run_coq_cases('c07x', XL_HEADER, 'fun x : list Z => x', terms, per_file=10, nested=True)
+    except RuntimeError as e:
+        rep.broken_obligation('correspondence:XlDoc-evaluation', str(e)[-800:])
+    n_dis = n_out = n_doc = n_imp = 0
+    kinds = {}
+    if model is not None:
+        for c, mz in zip(cases, model):
+            bad = None
+            if mz[0] == 9:
+                n_out += 1                       # the writer model is fail-closed outside its fragment
+            elif mz[0] != 0:
+                bad = 'export: the model raises %s, the implementation wrote a file' % vlib.EXN[mz[0]]
+            elif mz[1:5] != [-1, -1, -1, -1]:
+                bad = "the file differs from the model at cell (row %d, column %d) of sheet 'data' / (row %d, column %d) of sheet 'otherdata' (-1: no difference)" % tuple(mz[1:5])
+            else:
+                n_doc += 1
+            if bad is None:
+                if mz[5] == 9 and c['imp'] != 'FellOffEnd':
+                    n_out += 1 if mz[0] != 9 else 0
+                elif mz[6] != 1:
+                    bad = 'import outcome: model %s, implementation %s' % (vlib.EXN[mz[5]] if mz[5] < len(vlib.EXN) else mz[5], c['imp'])
+                elif mz[5] == 0:
+                    wrong = [CSV_FIELDS[i] for i, v in enumerate(mz[7:]) if v != 1]
+                    if wrong:
+                        bad = 'state of the re-imported isotherm differs from the model in: ' + ', '.join(wrong)
+                    else:
+                        n_imp += 1
+                else:
+                    n_imp += 1
+                    kinds[c['imp']] = kinds.get(c['imp'], 0) + 1
+            if bad:
+                n_dis += 1
+                if n_dis <= 5:
+                    rep.broken_obligation('correspondence:XlDoc-vs-implementation', {'what': bad, 'spec': c['spec']})
+        if len(cases) and n_doc < 0.6 * len(cases):
+            rep.broken_obligation('correspondence:XlDoc-coverage', 'only %d of %d workbooks are inside the modelled fragment' % (n_doc, len(cases)))
+    rep.cov['xl_document_correspondence'] = {'cases': len(cases), 'workbooks_equal_cell_by_cell': n_doc, 'imports_agree': n_imp, 'refused_alike': kinds,
+                                             'outside_modelled_fragment': n_out, 'disagreements': n_dis, 'not_submitted': skipped}
+    rep.cov['evaluations'] += len(cases)
+    return n_doc
+
+
+# ------------------------------------------------------------------ F. AIF document model (Codec/AifDoc.v) vs the implementation
+AIF_HEADER = CSV_HEADER + 'From PG Require Import Codec.AifDoc Codec.AifShow.\n'
+
+
+def aif_items(text):
+    """the block gemmi parses from the document: pairs (tag, raw value) and loops (tags, rows of raw values)"""
+    from gemmi import cif
+    block = cif.read_string(text).sole_block()
+    items, cells, columns = [], set(), []
+    for it in block:
+        if it.pair is not None:
+            items.append('(IPair %s %s)' % (cc.cstr(it.pair[0]), cc.cstr(it.pair[1])))
+            cells.add(it.pair[1].strip("'"))
+        elif it.loop is not None:
+            w = it.loop.width()
+            vals = list(it.loop.values)
+            rows = [vals[k:k + w] for k in range(0, len(vals), w)]
+            items.append('(ILoop [%s] [%s])' % ('; '.join(cc.cstr(t) for t in it.loop.tags),
+                                               '; '.join('[%s]' % '; '.join(cc.cstr(v) for v in r) for r in rows)))
+            for j in range(w):
+                columns.append([r[j] for r in rows])
+    return '[%s]' % '; '.join(items), cells, columns
+
+
+def aif_oracle_tables(o0, cells, columns):
+    """the oracles of AifDoc.v as finite tables for THIS case: repr(float) of the floats of the isotherm state, float(s) / _from_list(s)
+    of the stripped pair values, pandas.to_numeric of every loop column"""
+    import pandas
+    from pygaps.utilities.string_utilities import _from_list
+    fl = set()
+    for part in (o0['temperature'], o0['meta'], o0['mprops']):
+        _walk_floats(part, fl)
+    if o0['cls'] == 'model':
+        m = o0['model']
+        for part in (m['rmse'], m['params'], list(m['prange']), list(m['lrange'])):
+            _walk_floats(part, fl)
+    rt = '[%s]' % '; '.join('(%s, %s)' % (vlib.flit(x), cc.cstr(repr(x))) for x in sorted(fl))
+    ft, lt, nt = [], [], []
+    for f in sorted(cells):
+        try:
+            ft.append('(%s, %s)' % (cc.cstr(f), cc.cval(float(f))))
+        except ValueError:
+            pass
+        if f[:1] == '[' and f[-1:] == ']':
+            try:
+                lt.append('(%s, %s)' % (cc.cstr(f), cc.cval(_from_list(f))))
+            except Exception:  # noqa
+                pass
+    for col in columns:
+        try:
+            num = [cc.py(x) for x in pandas.to_numeric(pandas.Series(col))]
+        except (ValueError, TypeError):
+            num = list(col)
+        nt.append('([%s], [%s])' % ('; '.join(cc.cstr(x) for x in col), '; '.join(cc.cval(x) for x in num)))
+    return rt, '[%s]' % '; '.join(ft), '[%s]' % '; '.join(lt), '[%s]' % '; '.join(nt)
+
+
+def aif_correspondence(rep, tier, seed):
+    import pygaps.parsing as pp
+    rnd = random.Random(seed + 37)
+    n = 1200 if tier == 'thorough' else 110
+    specs = gen_specs(rnd, 'aif', n, special=0.5)
+    for txt in ["it's", "'quoted'", 'two words', 0, 0.0, False, None, -5, 1e22, 1e-300, 'a b  c']:
+        s0 = cc.gen_spec(rnd, 'flat', cls=rnd.choice(['base', 'point', 'model']), blank_keys=False, mat_nested=False)
+        s0['meta'] = {'comment': txt, 'k2': 1.5}
+        s0['mprops'] = {'density': txt} if not isinstance(txt, str) else {}
+        specs.append(fix_aif(s0))
+    tbl = cc.ads_canon_table()
+    terms, cases = [], []
+    skipped = {}
+    for k, spec in enumerate(specs):
+        if spec['cls'] == 'point':
+            d = spec['data']
+            d['p'], d['l'] = [away_from_ties(x) for x in d['p']], [away_from_ties(x) for x in d['l']]
+            d['cols'] = {c: [away_from_ties(x) for x in v] for c, v in d['cols'].items()}
+        try:
+            iso = cc.build(spec)
+        except Exception:  # noqa
+            continue
+        o0 = cc.observe(iso)
+        try:
+            text = pp.isotherm_to_aif(iso)
+        except Exception:  # noqa  (judged by the round-trip oracle)
+            skipped['export refused'] = skipped.get('export refused', 0) + 1
+            continue
+        try:
+            items, cells, columns = aif_items(text)
+        except Exception:  # noqa  gemmi cannot parse what it wrote (known findings C07-F15/F17/F18, judged by the oracle)
+            skipped['unparsable document'] = skipped.get('unparsable document', 0) + 1
+            continue
+        path = os.path.join(SCR, 'c07a_%d.aif' % os.getpid())
+        try:
+            open(path, 'w', encoding='utf8').write(text)
+            j = pp.isotherm_from_aif(path)
+            imp, o1 = 'Ok', cc.observe(j)
+        except Exception as e:  # noqa
+            imp, o1 = vlib.exn_class(e), o0
+        finally:
+            if os.path.exists(path):
+                os.remove(path)
+        rt, ft, lt, nt = aif_oracle_tables(o0, cells, columns)
+        terms.append('(chk_aif %s %s %s %s %s %s %s (%d)%%Z %s)' % (rt, ft, lt, nt, tbl, cc.coq_iso(o0), items,
+                                                                 vlib.EXN.index(imp) if imp in vlib.EXN else 99, cc.coq_iso(o1)))
+        cases.append(dict(spec=spec, imp=imp))
+    model = None
+    try:
+        model = vlib.run_coq_cases('c07a', AIF_HEADER, 'fun x : list Z => x', terms, per_file=10, nested=True)
+    except RuntimeError as e:
+        rep.broken_obligation('correspondence:AifDoc-evaluation', str(e)[-800:])
+    n_dis = n_out = n_doc = n_imp = 0
+    kinds = {}
+    if model is not None:
+        for c, mz in zip(cases, model):
+            bad = None
+            if mz[0] == 9:
+                n_out += 1                       # the writer model is fail-closed outside its fragment (values that are not one CIF token)
+            elif mz[0] != 0:
+                bad = 'export: the model raises %s, the implementation wrote a document' % vlib.EXN[mz[0]]
+            elif mz[1] != -1:
+                bad = 'item %d of the block differs from the model' % mz[1]
+            else:
+                n_doc += 1
+            if bad is None:
+                if mz[2] == 9 and c['imp'] != 'FellOffEnd':
+                    n_out += 1 if mz[0] != 9 else 0
+                elif mz[2] == 3 and c['imp'] in ('ValueError', 'other:SyntaxError'):
+                    n_imp += 1                   # _from_list (ast.literal_eval) is an oracle: the class of ITS error is not modelled
+                    kinds['raw error of the _from_list oracle'] = kinds.get('raw error of the _from_list oracle', 0) + 1
+                elif mz[3] != 1:
+                    bad = 'import outcome: model %s, implementation %s' % (vlib.EXN[mz[2]] if mz[2] < len(vlib.EXN) else mz[2], c['imp'])
+                elif mz[2] == 0:
+                    wrong = [CSV_FIELDS[i] for i, v in enumerate(mz[4:]) if v != 1]
+                    if wrong:
+                        bad = 'state of the re-imported isotherm differs from the model in: ' + ', '.join(wrong)
+                    else:
+                        n_imp += 1
+                else:
+                    n_imp += 1
+                    kinds[c['imp']] = kinds.get(c['imp'], 0) + 1
+            if bad:
+                n_dis += 1
+                if n_dis <= 5:
+                    rep.broken_obligation('correspondence:AifDoc-vs-implementation', {'what': bad, 'spec': c['spec']})
+        if len(cases) and n_doc < 0.6 * len(cases):
+            rep.broken_obligation('correspondence:AifDoc-coverage', 'only %d of %d documents are inside the modelled fragment' % (n_doc, len(cases)))
+    rep.cov['aif_document_correspondence'] = {'cases': len(cases), 'blocks_equal_item_by_item': n_doc, 'imports_agree': n_imp, 'refused_alike': kinds,
+                                              'outside_modelled_fragment': n_out, 'disagreements': n_dis, 'not_submitted': skipped}
+    rep.cov['evaluations'] += len(cases)
+    return n_doc
+
+
+def fix_aif(s):
+    """the AIF restrictions of gen_specs on a directed spec (ASCII one-token cells, AIF column names)"""
+    s['meta'] = {k: v for k, v in s['meta'].items() if k.isascii() and k not in AIF_TYPED}
+    s['mprops'] = {k: v for k, v in s['mprops'].items() if k.isascii()}
+    if s['cls'] == 'point':
+        d = s['data']
+        d['pk'], d['lk'] = 'pressure', 'loading'
+        d['cols'] = {k: v for k, v in d['cols'].items() if k.isascii() and ' ' not in k and not (v and isinstance(v[0], bool))}
+        d['cols'] = {k: ([x if x.isascii() and ' ' not in x else 'tok' for x in v] if v and isinstance(v[0], str) else v) for k, v in d['cols'].items()}
+    return s
+
+
 
 def c06_js(spec):
     return spec
 
 
-EXTRA_TARGETS = ['Codec/CsvShow.vo']
+EXTRA_TARGETS = ['Codec/CsvShow.vo', 'Codec/XlShow.vo', 'Codec/AifShow.vo']
 
 
 def run(rep, tier, seed):
@@ -637,16 +1041,22 @@ def explore(rep, tier, seed):
     to_string_oracle(rep, tier, seed)
     hist, nontrivial = roundtrips(rep, tier, seed)
     nk += csv_correspondence(rep, tier, seed)
+    nk += xl_correspondence(rep, tier, seed)
+    nk += aif_correspondence(rep, tier, seed)
     rep.cov['distinct_nontrivial'] = len(nontrivial) + nk
     rep.cov['rule'] = ('(a) 20 000 distinct structured ASCII strings (numerals in every Python spelling incl. underscores/exponents/blanks, case variants of '
                        'none/true/false/nan/inf, brackets, random strings over a small alphabet, repr of floats) through cast_string vs the Coq model; '
                        '(b) 20 000 values of the documented domain through cast_string(_to_string(v)); (c) per format 200 generated isotherms (as C06, metadata '
                        'restricted to the format value domain) exported and re-imported, string and file targets, plus a malformed-text stream and directed '
-                       'marker-like keys; (d) ~110 generated isotherms + directed texts through the Coq model of the CSV document. non-trivial = '
+                       'marker-like keys; a third of them with falsy / special values (0, 0.0, -0.0, False, empty text, NaN, inf, denormal, 1e-9, 1e22, 1e300) '
+                       'at the first / a middle / the last row of the pressure, loading and extra columns or in the model parameters and ranges; '
+                       '(d) ~110 generated isotherms + directed texts through the Coq model of the CSV document; (e) ~110 generated isotherms (half with '
+                       'special values) + directed falsy metadata through the Coq model of the Excel workbook, cell by cell; (f) ~110 generated isotherms + '
+                       'directed texts through the Coq model of the AIF block, item by item. non-trivial = '
                        'distinct (format, class, typed metadata shape, rows, unit labels) preserved by the round trip + distinct (result kind, length) of (a)')
     rep.cov['input_distribution'] = dict(sorted(hist.items()))
-    rep.cov['trusted_base'] += ['oracles: Python float()/repr()/int()/ast.literal_eval; pandas to_csv/read_csv; xlwt/xlrd; gemmi.cif',
-                                'the document-level round trips are validated on the implementation, not proved']
+    rep.cov['trusted_base'] += ['oracles: Python float()/repr()/int()/str()/ast.literal_eval; pandas to_csv/read_csv/dtype/astype; xlwt/xlrd; gemmi.cif',
+                                'the AIF round trip (and CSV / Excel beyond the modelled fragments) is validated on the implementation, not proved']
     rep.assumptions += ['metadata keys without separator/blank; text values outside the spellings of none/boolean/number/list (property text)',
                         'cells compared to the documented 8-decimal precision']
 
